@@ -170,8 +170,8 @@ Proof. exact plain_guard. Qed.
    the file (writer held) before it crashes too:
    the persisted write is owed and stored, the other is not owed *)
 Example C05_crash_nonvacuous :
-  let evs := [EStart true false; EWrite 0 [w_plain] true; EPersist; ECrash;
-              EStart true false; EWrite 0 [w_plain] true; ECrash] in
+  let evs := [EStart true false false; EWrite 0 [w_plain] true; EPersist; ECrash;
+              EStart true false false; EWrite 0 [w_plain] true; ECrash] in
   Forall (ev_guard v_current idsan) evs /\ quiet v_current idsan st0 (evs ++ [ECrash]) /\
   List.length (s_due (run_events v_current idsan st0 evs)) = 1%nat /\
   List.length (s_store (run_events v_current idsan st0 (evs ++ restart 0))) = 1%nat.
@@ -296,3 +296,27 @@ Proof.
   - exists [(k_time, GArr [GInt t0]); (b_v, GArr [GInt 7])], [GInt t0]. repeat split; try reflexivity. discriminate.
   - left. exists b_cpu. reflexivity.
 Qed.
+
+(* ---- size-triggered rotation (tiny MaxSizeBytes: a fresh file after every entry) ---- *)
+
+(* the writer's appends - with or without rotation - keep every file made of replayable entries and
+   add exactly the rows of the appended entries to what recovery will replay: rotation never loses
+   or re-frames an entry (C05_crash_any_point* quantify over histories whose lifetimes rotate) *)
+Theorem C05_rotation_keeps_entries : forall v san rot es files act,
+  Forall (Forall (good v san)) files -> Forall (good v san) act -> Forall (good v san) es ->
+  Forall (Forall (good v san)) (fst (log_append rot files act es)) /\
+  Forall (good v san) (snd (log_append rot files act es)) /\
+  files_rows v san (fst (log_append rot files act es)) ++ frows v san (snd (log_append rot files act es))
+  = files_rows v san files ++ frows v san act ++ frows v san es.
+Proof. exact log_append_facts. Qed.
+Print Assumptions C05_rotation_keeps_entries.
+
+(* a rotating lifetime: three acknowledged writes end in three files (plus the empty active one);
+   after the crash all three rows are owed and stored by the next startup *)
+Example C05_rotation_nonvacuous :
+  let evs := [EStart false false true; EWrite 0 [w_plain] true; EWrite 0 [w_plain] true; EWrite 0 [w_plain] true] in
+  List.length (s_files (run_events v_fixed idsan st0 (evs ++ [ECrash]))) = 4%nat /\
+  List.length (s_due (run_events v_fixed idsan st0 evs)) = 3%nat /\
+  List.length (s_store (run_events v_fixed idsan st0 (evs ++ restart 0))) = 3%nat /\
+  s_files (run_events v_fixed idsan st0 (evs ++ restart 0)) = [].
+Proof. vm_compute. repeat split; reflexivity. Qed.
